@@ -122,9 +122,18 @@ def extra(ctx, known):
 
 
 MANIFEST = {
-    "text": "Coq (mathcomp ssreflect) model of the linear sieve with the literal early break; theorems listed in evidence. "
-            "The model is tied to the code on every run: for every limit N up to the bound the executor dumps the full tables "
-            "and all factorisations and Coq proves model = implementation and implementation |= trial-division spec.",
+    "text": "Coq (mathcomp ssreflect, no axioms, 12 pinned) theorems about an executable model of Sieve::new with the "
+            "literal early break and of the factorisation iterator, for EVERY limit N: c13_invariant (state after each "
+            "outer step: cells <= i hold pdiv, a cell above i holds pdiv iff it is composite with cofactor <= i and is 0 "
+            "otherwise, the prime list is the primes <= i in order), c13_min_prime (= pdiv n for 2 <= n <= N), "
+            "c13_is_prime (= prime n for 0 <= n <= N), c13_primes (all primes <= N, increasing), c13_sizes, "
+            "c13_break_is_takewhile (the break evaluated against mnp[i] is sound because no write of the loop touches "
+            "cell i), c13_factorize / c13_factorize_spec (= prime_decomp n: strictly increasing primes with exact "
+            "exponents whose product is n; no fuel exhaustion) and c13_factorize_one, c13_written_once / "
+            "c13_written_once_upto (ghost counter: every cell 2..N assigned exactly once), c13_all_limits_upto_K "
+            "(independent finite check by computation for every N <= 600). The model is tied to the code on every run: "
+            "for every limit N up to the bound the executor dumps the full tables and all factorisations and Coq proves "
+            "model = implementation and implementation |= trial-division spec.",
     "level_note": "Trusted: Coq kernel + vm_compute; the Rust executor and the Python case printer; integers are nat "
                   "(limits < 2^31); theorems are about the model, the correspondence covers every limit up to the bound; "
                   "the 10^6/10^7 comparison against an independent sieve is an implementation-only search.",
